@@ -82,6 +82,9 @@ class Check:
         self._distinct = set()
         os.makedirs(os.path.join(VERIF, "evidence"), exist_ok=True)
         os.makedirs(os.path.join(VERIF, "replays"), exist_ok=True)
+        import glob
+        for old in glob.glob(os.path.join(VERIF, "replays", "%s-%s-s%d-*.json" % (self.pid, self.tier, self.seed))):
+            os.unlink(old)      # replays of an earlier run with the same parameters
 
     # ------------------------------------------------------------------ scratch + builds
     @property
